@@ -113,6 +113,11 @@ def name_atom(term, hdr_size, full_size, lower=None, effects=None):
     if cc is not None:
         cop, x, c = cc
         sx = fmt(x)
+        if 'read#' in sx and 'mmap#' not in sx and isinstance(c, int) and c > 0:
+            # the number of bytes read compared with a positive constant, in any spelling (`n < 16`, `!(n >= 16)`, `n <= 15`)
+            ug2 = common.unsigned_ge(cop, c)
+            if ug2 is not None:
+                return ('read<header(%d)' % ug2[0], ug2[1])
         neg = {('lt', 0): False, ('le', -1): False, ('ge', 0): True, ('gt', -1): True, ('eq', -1): False, ('ne', -1): True}.get((cop, c))
         if neg is not None:
             for call, atom in (('open#', 'open<0'), ('read#', 'read<0')):
